@@ -385,6 +385,9 @@ def crossing(ck):
     for w in range(16 if not ck.thorough() else 160):
         if ck.mine(w):
             c01.run_leading_zero(ck, w, ck.seed * 1000003 + 9977)
+    for w in range(16 if not ck.thorough() else 160):
+        if ck.mine(w + 1):
+            c01.run_proposal_spi(ck, w, ck.seed * 1000003 + 9988)
     for w in range(36 if not ck.thorough() else 720):
         if ck.mine(w):
             child_on_the_rekeyed_ike_sa(ck, w, ck.seed * 1000003 + 9955)
@@ -394,6 +397,7 @@ def verdict(ck):
     c = ck.counters
     t = ck.thorough()
     ck.floor('crossing-exchange walks', c['crossing.walks'], 40)
+    ck.floor('handshakes with an SPI field inside the IKE_SA_INIT proposal of the answer', c['proposal_spi.handshakes'], 12)
     ck.floor('INVALID_KE_PAYLOAD histories that start with an IKE_SA rekey pushed back by TEMPORARY_FAILURE', c['ke_retry.histories_after_a_refused_ike_rekey'], 6)
     ck.floor('end-to-end handshakes whose Diffie-Hellman result has a leading zero octet', c['leading_zero.completed_with_rfc_keys'], 12)
     ck.floor('CREATE_CHILD_SA requests answered on an IKE_SA that had already rekeyed itself', c['old_ike_sa.requests_answered'], 25)
